@@ -90,8 +90,17 @@ def run(ctx):
                        sample={'fn': 'response_series', 'n': n, 'dt': dt, 'periods': periods, 'xi': xi, 'record': kind} if i < 4 else None)
         snap = a.copy()
         r1 = call_impl(sdof.response_series, a, dt, pc, xi)
+        if np.all(a == np.round(a)) and np.max(np.abs(a)) < 2 ** 40:
+            # integer-valued record: an integer ndarray and a list of Python ints must give the float result (no dtype leak)
+            for vname, va in (('int64 array', a.astype(np.int64)), ('list of ints', [int(x) for x in a])):
+                rv = call_impl(sdof.response_series, va, dt, pc, xi)
+                okv = rv[0] == r1[0] == 'ok' and all(np.array_equal(x, y) for x, y in zip(rv[1], r1[1]))
+                ctx.hist('record container=' + vname)
+                ctx.oracle('integer-typed records (int array, list of ints) give the same response as the float record', okv,
+                           {'acc': a, 'dt': dt, 'periods': periods, 'xi': xi, 'container': vname},
+                           detail=None if okv else {'max_dev_u': float(np.max(np.abs(np.asarray(rv[1][0], dtype=float) - r1[1][0]))) if rv[0] == 'ok' and r1[0] == 'ok' else rv})
         r2 = call_impl(sdof.nigam_and_jennings_response, a, dt, pc, xi)
-        asig = eqsig.AccSignal(a, dt)
+        asig = ctx.aged(eqsig.AccSignal, a, dt)
         r3 = call_impl(asig.response_series, response_times=np.array(periods), xi=xi)
         inputs = {'acc': a, 'dt': dt, 'periods': periods, 'xi': xi}
         ctx.oracle('input record unchanged', np.array_equal(snap, a), inputs)
